@@ -62,6 +62,7 @@ Proof.
   intros Hy Hm Hd. cbn [date_time.f_normalize_year]. py_run.
   replace (1 <=? m) with true by (symmetry; apply Z.leb_le; lia). py_run.
   replace (m <=? 12) with true by (symmetry; apply Z.leb_le; lia). py_run.
+  replace (y <? 1) with false by (symmetry; apply Z.ltb_ge; lia). py_run.
   replace (d <=? 0) with false by (symmetry; apply Z.leb_gt; lia). py_run.
   destruct (max_days_ge y m Hy Hm) as (k & Hk & Hge). rewrite Hk. py_run.
   replace (k <? d) with false by (symmetry; apply Z.ltb_ge; lia). reflexivity.
